@@ -60,6 +60,9 @@ pub struct WireState {
     pub just_pended: bool,
     /// candidate filter for `PartitionDev`: absolute stream offset after the read -> allowed?
     pub cut_filter: Option<fn(usize) -> bool>,
+    /// alternative candidate filter for `PartitionDev`: the set of absolute stream offsets at which
+    /// a read may end early
+    pub cut_set: Option<std::collections::BTreeSet<usize>>,
     pub read_waker: Option<Waker>,
     pub reads: Vec<ReadLog>,
     pub read_polls: usize,
@@ -97,6 +100,7 @@ impl Wire {
             pend_policy: PendPolicy::Never,
             just_pended: false,
             cut_filter: None,
+            cut_set: None,
             read_waker: None,
             reads: Vec::new(),
             read_polls: 0,
@@ -224,8 +228,11 @@ impl Wire {
                 let cx = s.cx.clone().expect("wire without explorer context");
                 let base = s.consumed;
                 let filt = s.cut_filter;
+                let cands: Vec<usize> = match &s.cut_set {
+                    Some(set) => (1..max).rev().filter(|k| set.contains(&(base + k))).collect(),
+                    None => (1..max).rev().filter(|k| filt.map_or(true, |f| f(base + k))).collect(),
+                };
                 drop(s);
-                let cands: Vec<usize> = (1..max).rev().filter(|k| filt.map_or(true, |f| f(base + k))).collect();
                 let v = cx.choose_dev(cands.len() + 1, "read:short");
                 let n = if v == 0 { max } else { cands[v - 1] };
                 s = self.0.borrow_mut();
